@@ -94,15 +94,15 @@ def map_view(ex, m, which):
         sk = K.Seq(k.val)
         f = P.ufn(f'values_{k.name}', [k.sort()], sk.sort())
         r = f(m.t)
-        run.assume(z3.Length(r) == n)
-        run.assume(P.forall([i], z3.Implies(z3.And(i >= 0, i < n), r[i] == k.optv.val(z3.Select(arr, keys[i]))), patterns=[r[i]]))
+        run.axiom(z3.Length(r) == n)
+        run.axiom(P.forall([i], z3.Implies(z3.And(i >= 0, i < n), r[i] == k.optv.val(z3.Select(arr, keys[i]))), patterns=[r[i]]))
         return Sym(sk, r)
     tk = K.Tup(k.key, k.val)
     sk = K.Seq(tk)
     f = P.ufn(f'items_{k.name}', [k.sort()], sk.sort())
     r = f(m.t)
-    run.assume(z3.Length(r) == n)
-    run.assume(P.forall([i], z3.Implies(z3.And(i >= 0, i < n),
+    run.axiom(z3.Length(r) == n)
+    run.axiom(P.forall([i], z3.Implies(z3.And(i >= 0, i < n),
                                          r[i] == tk.mk(keys[i], k.optv.val(z3.Select(arr, keys[i])))), patterns=[r[i]]))
     return Sym(sk, r)
 
@@ -119,12 +119,12 @@ def wf_map(ex, m):
     keys = k.keys(m.t)
     arr = k.arr(m.t)
     x = z3.Const(f'wf_k_{k.key.name}', k.key.sort())
-    run.assume(P.forall([x], z3.Contains(keys, z3.Unit(x)) == z3.Not(k.optv.is_none(z3.Select(arr, x))),
+    run.axiom(P.forall([x], z3.Contains(keys, z3.Unit(x)) == z3.Not(k.optv.is_none(z3.Select(arr, x))),
                          patterns=[z3.Select(arr, x)]))
     i, j = z3.Ints('wf_i wf_j')
-    run.assume(P.forall([i, j], z3.Implies(z3.And(i >= 0, i < j, j < z3.Length(keys)), keys[i] != keys[j]),
+    run.axiom(P.forall([i, j], z3.Implies(z3.And(i >= 0, i < j, j < z3.Length(keys)), keys[i] != keys[j]),
                          patterns=[P.mpat(keys[i], keys[j])]))
-    run.assume(P.forall([i], z3.Implies(z3.And(i >= 0, i < z3.Length(keys)),
+    run.axiom(P.forall([i], z3.Implies(z3.And(i >= 0, i < z3.Length(keys)),
                                          z3.Not(k.optv.is_none(z3.Select(arr, keys[i])))), patterns=[keys[i]]))
 
 
@@ -147,8 +147,8 @@ def view_seq(ex, view):
         st = P.int_t(ex, start)
         r = f(base.t, st)
         i = z3.Int('en_i')
-        run.assume(z3.Length(r) == z3.Length(base.t))
-        run.assume(P.forall([i], z3.Implies(z3.And(i >= 0, i < z3.Length(base.t)), r[i] == tk.mk(i + st, base.t[i])), patterns=[r[i]]))
+        run.axiom(z3.Length(r) == z3.Length(base.t))
+        run.axiom(P.forall([i], z3.Implies(z3.And(i >= 0, i < z3.Length(base.t)), r[i] == tk.mk(i + st, base.t[i])), patterns=[r[i]]))
         return Sym(sk, r)
     if kind == 'reversed':
         base = as_seq(ex, view.base)
@@ -207,11 +207,11 @@ def sorted_(ex, v, key=None, reverse=False):
     f = P.ufn(f'sorted_{k.name}_{keyname}', [k.sort()], k.sort())
     r = f(s.t)
     n = z3.Length(s.t)
-    run.assume(z3.Length(r) == n)
+    run.axiom(z3.Length(r) == n)
     e = z3.Const(f'srt_e_{k.elem.name}', k.elem.sort())
-    run.assume(P.forall([e], z3.Contains(r, z3.Unit(e)) == z3.Contains(s.t, z3.Unit(e)), patterns=[z3.Contains(r, z3.Unit(e))]))
-    run.assume(z3.Implies(n == 0, r == s.t))
-    run.assume(z3.Implies(n == 1, r == s.t))
+    run.axiom(P.forall([e], z3.Contains(r, z3.Unit(e)) == z3.Contains(s.t, z3.Unit(e)), patterns=[z3.Contains(r, z3.Unit(e))]))
+    run.axiom(z3.Implies(n == 0, r == s.t))
+    run.axiom(z3.Implies(n == 1, r == s.t))
     # ordering axiom on the key
     i, j = z3.Ints('srt_i srt_j')
 
@@ -232,7 +232,7 @@ def sorted_(ex, v, key=None, reverse=False):
         else:
             le = None
         if le is not None:
-            run.assume(P.forall([i, j], z3.Implies(z3.And(i >= 0, i < j, j < n), le), patterns=[P.mpat(r[i], r[j])]))
+            run.axiom(P.forall([i, j], z3.Implies(z3.And(i >= 0, i < j, j < n), le), patterns=[P.mpat(r[i], r[j])]))
     except OutOfSubset:
         pass
     return run.alloc(HList(sym=Sym(k, r)))
@@ -276,7 +276,7 @@ class Lam:
         return vt, g
 
 
-def merge_eval(ex, thunk):
+def merge_eval(ex, thunk, allow_events=False):
     """Evaluate thunk() (pure: no heap effects visible outside) over all its paths and merge the results
     into one value with ITEs.  Returns (value, exceptional_condition)."""
     from .run import Run
@@ -294,7 +294,12 @@ def merge_eval(ex, thunk):
         sub.fresh_n = outer.fresh_n + 100000
         sub.depth = outer.depth
         sub.inputs = outer.inputs
+        sub.trace = list(outer.trace)
         sub.in_merge = True
+        sub.axioms = outer.axioms
+        sub.obligations_sink = outer.obligations_sink
+        sub.tags = list(outer.tags)
+        sub.ghost['_axiom_ids'] = outer.ghost.setdefault('_axiom_ids', set())
         ex.run = sub
         try:
             try:
@@ -304,6 +309,10 @@ def merge_eval(ex, thunk):
                 # branches are not pruned eagerly in merged evaluation: check this raising arm now
                 if sub.feasible([]):
                     results.append((sub.pc[base_pc_len:], 'raise', r.exc))
+            except OutOfSubset:
+                # branches are not pruned eagerly here: an unsupported construct on an infeasible arm is irrelevant
+                if sub.feasible([]):
+                    raise
             except PathEnd as p:
                 if p.kind != 'infeasible':
                     raise OutOfSubset(f'path end {p.kind} inside merged evaluation')
@@ -311,7 +320,7 @@ def merge_eval(ex, thunk):
                 work.append(alt)
             for f in sub.assumed:
                 outer.assumed.add(f)
-            if sub.trace:
+            if sub.trace[len(outer.trace):] and not allow_events:
                 raise OutOfSubset('abstract call inside a merged (pure) evaluation')
         finally:
             ex.run = outer
@@ -518,7 +527,7 @@ def filter_map(ex, s, lam):
         g1 = g1 if g1 is not None else z3.BoolVal(True)
         g2 = g2 if g2 is not None else z3.BoolVal(True)
         agree = z3.And(g1 == g2, z3.Implies(g1, v1 == v2))
-        run.assume(z3.Or(f(s.t) == f2(s.t), z3.And(sk.t >= 0, sk.t < z3.Length(s.t), z3.Not(agree))))
+        run.axiom(z3.Or(f(s.t) == f2(s.t), z3.And(sk.t >= 0, sk.t < z3.Length(s.t), z3.Not(agree))))
     apps.append((f, lam, s.t, out_kind))
     return Sym(out_kind, r)
 
@@ -527,8 +536,8 @@ def instantiate_fm_base(ex, f, lam, k, out_kind, st):
     run = ex.run
     r = f(st)
     n = z3.Length(st)
-    run.assume(z3.Implies(n == 0, z3.Length(r) == 0))
-    run.assume(z3.Length(r) <= n)
+    run.axiom(z3.Implies(n == 0, z3.Length(r) == 0))
+    run.axiom(z3.Length(r) <= n)
 
 
 def instantiate_fm(ex, f, lam, k, out_kind, st):
@@ -541,7 +550,7 @@ def instantiate_fm(ex, f, lam, k, out_kind, st):
     for (a, e) in snoc_decompositions(st, run):
         vt, g = lam.at(ex, e)
         step = z3.Concat(f(a), z3.Unit(vt)) if g is None else z3.If(g, z3.Concat(f(a), z3.Unit(vt)), f(a))
-        run.assume(r == step)
+        run.axiom(r == step)
         if g is None:
             # remember the snoc form of r so that combinators applied to r can unfold as well
             run.ghost.setdefault('_snoc', {})[r.sexpr()] = (f(a), vt)
@@ -550,21 +559,21 @@ def instantiate_fm(ex, f, lam, k, out_kind, st):
     i = z3.Int('fm_i')
     if lam.guard is None:
         vt, _ = lam.at(ex, st[i])
-        run.assume(z3.Length(r) == n)
-        run.assume(P.forall([i], z3.Implies(z3.And(i >= 0, i < n), r[i] == vt), patterns=[r[i]]))
+        run.axiom(z3.Length(r) == n)
+        run.axiom(P.forall([i], z3.Implies(z3.And(i >= 0, i < n), r[i] == vt), patterns=[r[i]]))
     else:
         # every output element comes from an input element satisfying the guard (Skolem index function)
         src = P.ufn(f'src_{f.name()}', [k.sort(), z3.IntSort()], z3.IntSort())
         vt, g = lam.at(ex, st[src(st, i)])
-        run.assume(P.forall([i], z3.Implies(z3.And(i >= 0, i < z3.Length(r)),
+        run.axiom(P.forall([i], z3.Implies(z3.And(i >= 0, i < z3.Length(r)),
                                              z3.And(src(st, i) >= 0, src(st, i) < n, g, r[i] == vt)), patterns=[r[i]]))
         j = z3.Int('fm_j')
-        run.assume(P.forall([i, j], z3.Implies(z3.And(i >= 0, i < j, j < z3.Length(r)), src(st, i) < src(st, j)),
+        run.axiom(P.forall([i, j], z3.Implies(z3.And(i >= 0, i < j, j < z3.Length(r)), src(st, i) < src(st, j)),
                              patterns=[P.mpat(r[i], r[j])]))
         # every input element satisfying the guard appears (Skolem position function)
         pos = P.ufn(f'pos_{f.name()}', [k.sort(), z3.IntSort()], z3.IntSort())
         vt2, g2 = lam.at(ex, st[j])
-        run.assume(P.forall([j], z3.Implies(z3.And(j >= 0, j < n, g2),
+        run.axiom(P.forall([j], z3.Implies(z3.And(j >= 0, j < n, g2),
                                              z3.And(pos(st, j) >= 0, pos(st, j) < z3.Length(r), r[pos(st, j)] == vt2,
                                                     src(st, pos(st, j)) == j)), patterns=[st[j]]))
 
@@ -602,14 +611,14 @@ def seq_to_dict(ex, pairs):
     # key present iff some pair has it; Skolem "last index with that key"
     last = P.ufn(f'dof_last_{pairs.kind.name}', [pairs.kind.sort(), mk.key.sort()], z3.IntSort())
     li = last(pairs.t, x)
-    run.assume(P.forall([x], z3.If(mk.optv.is_none(sel),
+    run.axiom(P.forall([x], z3.If(mk.optv.is_none(sel),
                                      z3.BoolVal(True),
                                      z3.And(li >= 0, li < n, tk.get(pairs.t[li], 0) == x, mk.optv.val(sel) == tk.get(pairs.t[li], 1))),
                          patterns=[sel]))
-    run.assume(P.forall([i], z3.Implies(z3.And(i >= 0, i < n),
+    run.axiom(P.forall([i], z3.Implies(z3.And(i >= 0, i < n),
                                          z3.And(z3.Not(mk.optv.is_none(z3.Select(mk.arr(m.t), tk.get(pairs.t[i], 0)))),
                                                 last(pairs.t, tk.get(pairs.t[i], 0)) >= i)), patterns=[pairs.t[i]]))
-    run.assume(z3.Implies(n == 0, m.t == P.empty_map(ex, mk).t))
+    run.axiom(z3.Implies(n == 0, m.t == P.empty_map(ex, mk).t))
     return run.alloc(HDict(sym=m))
 
 
@@ -654,11 +663,11 @@ def any_all(ex, v, is_any):
     b = run.fresh(K.Bool, 'any' if is_any else 'all')
     sk = run.fresh(K.Int, 'aa_sk')
     if is_any:
-        run.assume(z3.Implies(b.t, z3.And(sk.t >= 0, sk.t < n, s.t[sk.t])))
-        run.assume(z3.Implies(z3.Not(b.t), P.forall([i], z3.Implies(z3.And(i >= 0, i < n), z3.Not(s.t[i])), patterns=[s.t[i]])))
+        run.axiom(z3.Implies(b.t, z3.And(sk.t >= 0, sk.t < n, s.t[sk.t])))
+        run.axiom(z3.Implies(z3.Not(b.t), P.forall([i], z3.Implies(z3.And(i >= 0, i < n), z3.Not(s.t[i])), patterns=[s.t[i]])))
     else:
-        run.assume(z3.Implies(z3.Not(b.t), z3.And(sk.t >= 0, sk.t < n, z3.Not(s.t[sk.t]))))
-        run.assume(z3.Implies(b.t, P.forall([i], z3.Implies(z3.And(i >= 0, i < n), s.t[i]), patterns=[s.t[i]])))
+        run.axiom(z3.Implies(z3.Not(b.t), z3.And(sk.t >= 0, sk.t < n, z3.Not(s.t[sk.t]))))
+        run.axiom(z3.Implies(b.t, P.forall([i], z3.Implies(z3.And(i >= 0, i < n), s.t[i]), patterns=[s.t[i]])))
     return b
 
 
@@ -672,14 +681,14 @@ def join_term(ex, sep_t, parts_t):
         return r
     done.add(key)
     n = z3.Length(parts_t)
-    run.assume(z3.Implies(n == 0, r == z3.StringVal('')))
-    run.assume(z3.Implies(n == 1, r == parts_t[0]))
-    run.assume(z3.Implies(n == 2, r == z3.Concat(parts_t[0], sep_t, parts_t[1])))
+    run.axiom(z3.Implies(n == 0, r == z3.StringVal('')))
+    run.axiom(z3.Implies(n == 1, r == parts_t[0]))
+    run.axiom(z3.Implies(n == 2, r == z3.Concat(parts_t[0], sep_t, parts_t[1])))
     # snoc recursion (one unfolding)
     init = z3.SubSeq(parts_t, 0, n - 1)
-    run.assume(z3.Implies(n >= 2, r == z3.Concat(f(sep_t, init), sep_t, parts_t[n - 1])))
+    run.axiom(z3.Implies(n >= 2, r == z3.Concat(f(sep_t, init), sep_t, parts_t[n - 1])))
     for (a, e) in snoc_decompositions(parts_t, run):
-        run.assume(r == z3.If(z3.Length(a) == 0, e, z3.Concat(f(sep_t, a), sep_t, e)))
+        run.axiom(r == z3.If(z3.Length(a) == 0, e, z3.Concat(f(sep_t, a), sep_t, e)))
     return r
 
 
@@ -798,11 +807,11 @@ def seq_fold(ex, fn, init, xs):
     r = f(s.t)
 
     def inst(st):
-        run.assume(z3.Implies(z3.Length(st) == 0, f(st) == it))
+        run.axiom(z3.Implies(z3.Length(st) == 0, f(st) == it))
         for (pre, e) in snoc_decompositions(st, run):
             stepped = z3.substitute(val.t, (a.t, f(pre)), (x.t, e))
-            run.assume(f(st) == stepped)
-            run.assume(z3.Implies(z3.Length(pre) == 0, f(pre) == it))
+            run.axiom(f(st) == stepped)
+            run.axiom(z3.Implies(z3.Length(pre) == 0, f(pre) == it))
     inst(s.t)
     if z3.is_app(s.t) and s.t.decl().kind() == z3.Z3_OP_SEQ_EMPTY:
         return Sym(acc_kind, it)
